@@ -121,7 +121,7 @@ fn single_faults_at_wrap(ws_list: &[u16]) -> Vec<Scenario> {
 }
 
 /// windows of more than 32768 blocks that really fill: acknowledgement distances beyond half the number space
-fn huge_window_cases() -> Vec<Scenario> {
+pub fn huge_window_cases() -> Vec<Scenario> {
     let mut out = vec![];
     for role in [Role::Sender, Role::Receiver] {
         for (ws, blocks) in [(32768u16, 32770usize), (32769, 65540), (40000, 70000), (65535, 70000), (65535, 131074)] {
